@@ -108,3 +108,9 @@ pub fn ring_key(_k: &str) -> u64 { unsafe { RING_KEY } }
 /// scans, str comparison) on alignment: from_utf8 + parse::<i64> on two concrete bytes costs 17 s without this
 /// stub and 0.5 s with it.
 pub unsafe fn no_align_offset<T>(_p: *const T, _a: usize) -> usize { usize::MAX }
+
+/// `str::to_uppercase` -> ASCII upper-casing (identical on ASCII input; non-ASCII characters, which the real function
+/// maps through the Unicode tables, are left unchanged: the harnesses only feed ASCII names and keywords, and both
+/// parsers call the same function). The Unicode path builds its result char by char through tables, after which
+/// the command name is no longer a constant for CBMC and the parsers' 100-arm `match` is explored arm by arm.
+pub fn ascii_upper(s: &str) -> String { let mut o = String::from(s); o.make_ascii_uppercase(); o }
